@@ -8,6 +8,7 @@ CONSTANTS
   BRANCH = 2
   DEPTHS = {1000, 100000}
   BIGDEPTHS = {}
+  TWINMOD = 8
   VARIANT = "no_labels"
   ALG = FALSE
 INVARIANTS TypeOK ModelOK
